@@ -188,10 +188,10 @@ def check_imaginary(a):
         If the input is complex and is not purely real or purely imaginary.
     """
     if np.iscomplexobj(a):
-        if np.all(a.real == 0):
-            return a.imag, True
-        elif np.all(a.imag == 0):
+        if np.all(a.imag == 0):
             return a.real, False
+        elif np.all(a.real == 0):
+            return a.imag, True
         else:
             raise ValueError("cannot have mixed real/imaginary Phase")
     else:
